@@ -222,6 +222,7 @@ func ChooseK2(x *explore.Ctx, levels []int, sizes []int64) Config {
 
 // Result is the outcome of driving the writer through a content.
 type Result struct {
+	FaultCall int // WriteStepwise: index of the call during which the probe first changed (-1 = none)
 	Bytes  []byte
 	Calls  []string // names of the calls made, aligned with Errs
 	Errs   []error
@@ -338,6 +339,53 @@ func Write(c *model.Content, cfg Config, sink io.Writer, src AttSource) (res *Re
 				r, size = src(o.A)
 			}
 			err = w.WriteAttachment(&mcap.Attachment{LogTime: o.A.LogTime, CreateTime: o.A.CreateTime, Name: o.A.Name, MediaType: o.A.MediaType, DataSize: size, Data: r})
+		case model.KMetadata:
+			err = w.WriteMetadata(&mcap.Metadata{Name: o.D.Name, Metadata: toMap(o.D.Metadata)})
+		}
+		if !call(o.String(), err) {
+			return res
+		}
+	}
+	call("Close", w.Close())
+	return res
+}
+
+// WriteStepwise is Write with a probe evaluated after every call: the first call after which the
+// probe is >= 0 is recorded in FaultCall (used to attribute an injected fault to the call it hit).
+func WriteStepwise(c *model.Content, cfg Config, sink io.Writer, probe func() int) (res *Result) {
+	res = &Result{FaultCall: -1}
+	defer func() {
+		if p := recover(); p != nil {
+			res.Panic = PanicSite(p)
+		}
+	}()
+	call := func(name string, err error) bool {
+		res.Calls = append(res.Calls, name)
+		res.Errs = append(res.Errs, err)
+		if res.FaultCall < 0 && probe() >= 0 {
+			res.FaultCall = len(res.Calls) - 1
+		}
+		return err == nil
+	}
+	w, err := mcap.NewWriter(sink, cfg.Options())
+	if !call("NewWriter", err) {
+		return res
+	}
+	res.Writer = w
+	if !call("WriteHeader", w.WriteHeader(&mcap.Header{Profile: c.Header.Profile, Library: c.Header.Library})) {
+		return res
+	}
+	for _, o := range c.Ops {
+		var err error
+		switch o.Kind {
+		case model.KSchema:
+			err = w.WriteSchema(GoSchema(o.S))
+		case model.KChannel:
+			err = w.WriteChannel(GoChannel(o.C))
+		case model.KMessage:
+			err = w.WriteMessage(GoMessage(o.M))
+		case model.KAttachment:
+			err = w.WriteAttachment(&mcap.Attachment{LogTime: o.A.LogTime, CreateTime: o.A.CreateTime, Name: o.A.Name, MediaType: o.A.MediaType, DataSize: uint64(len(o.A.Data)), Data: bytes.NewReader(o.A.Data)})
 		case model.KMetadata:
 			err = w.WriteMetadata(&mcap.Metadata{Name: o.D.Name, Metadata: toMap(o.D.Metadata)})
 		}
